@@ -96,15 +96,21 @@ theorem op_not_special (h : tableOK = true) (i : Nat) (li : List String × Bool)
 
 /-- the parser of level c (0 … nLevels-1 binary/type levels, nLevels polarity, +1 postfix, +2 term)
     over the nested-expression parser `exprP f` -/
+def Lc (f c : Nat) : Lv := levelsL (binLevels.drop c) (exprP f)
+
 def Pc (f c : Nat) : Parser :=
-  if c ≤ nLevels then levelsP (binLevels.drop c) (exprP f)
+  if c ≤ nLevels then (Lc f c).parser
   else if c = nLevels + 1 then postfixP (exprP f) else termP (exprP f)
 
-theorem exprP_succ (f : Nat) : exprP (f + 1) = Pc f 0 := by
-  simp [exprP, Pc]
+/-- the loops of level c and of all tighter levels, as a builder -/
+def Cc (f c : Nat) : Cont := (Lc f c).cont
 
-theorem Pc_level (f c : Nat) (lvl : List String × Bool) (h : binLevels[c]? = some lvl) :
-    Pc f c = if lvl.2 then levelTyp lvl.1 (Pc f (c + 1)) else levelBin lvl.1 (Pc f (c + 1)) := by
+theorem exprP_succ (f : Nat) : exprP (f + 1) = Pc f 0 := by
+  simp [exprP, Pc, Lc, levelsP]
+
+theorem Lc_level (f c : Nat) (lvl : List String × Bool) (h : binLevels[c]? = some lvl) :
+    Lc f c = { parser := levelG (levelStep lvl (Lc f (c + 1))) (Lc f (c + 1)).parser,
+               cont := contThen (Lc f (c + 1)).cont (levelStep lvl (Lc f (c + 1))) } := by
   have hc : c < binLevels.length := by
     rcases Nat.lt_or_ge c binLevels.length with h1 | h1
     · exact h1
@@ -113,12 +119,10 @@ theorem Pc_level (f c : Nat) (lvl : List String × Bool) (h : binLevels[c]? = so
     have hg : binLevels[c] = lvl := by
       have := List.getElem?_eq_getElem hc; rw [this] at h; exact Option.some.inj h
     rw [← hg]; exact (List.drop_eq_getElem_cons hc)
-  have h1 : c ≤ nLevels := Nat.le_of_lt hc
-  have h2 : c + 1 ≤ nLevels := hc
-  simp only [Pc, h1, h2, if_true, hd, levelsP, List.foldr_cons]
+  simp only [Lc, hd, levelsL, List.foldr_cons]
 
 theorem Pc_unary (f : Nat) : Pc f nLevels = unaryP (exprP f) := by
-  simp [Pc, levelsP, nLevels]
+  simp [Pc, Lc, levelsL, nLevels]
 
 theorem Pc_post (f : Nat) : Pc f (nLevels + 1) = postfixP (exprP f) := by
   have : ¬ (nLevels + 1 ≤ nLevels) := by omega
@@ -195,13 +199,23 @@ open FP FP.Model.Syntax
 
 /-! ### the trees of the round-trip theorem -/
 
-/-- invocations: member, $this/$index/$total, function without arguments -/
+/-- an argument list (not empty) whose minimal rendering `e₁ , e₂ , …` is read back by the argument
+    parser, with nesting fuel from its depth; stated on the parser so that `Inv`/`Atom`/`Core` stay
+    plain inductive predicates — `core_of_wf` (FP.Lemmas.SyntaxFull) shows that every list of core
+    trees has it -/
+def ArgsOK (as : Ex) : Prop :=
+  as ≠ .argNil ∧ depth as ≤ (printArgs as).length + 1 ∧ printArgs as ≠ [] ∧ (∀ r, printArgs as ≠ .kw ")" :: r) ∧
+  ∀ f k rest, 2 * depth as ≤ f → (printArgs as).length ≤ k →
+    argsP (exprP f) k (printArgs as ++ .kw ")" :: rest) = some (as, .kw ")" :: rest)
+
+/-- invocations: member, $this/$index/$total, function without arguments, function with arguments -/
 inductive Inv : Ex → Prop where
   | member (n : String) : Inv (.member n)
   | this : Inv (.special "$this")
   | index : Inv (.special "$index")
   | total : Inv (.special "$total")
   | call0 (n : String) : Inv (.call n .argNil)
+  | callArgs (n : String) (as : Ex) (h : ArgsOK as) : Inv (.call n as)
 
 /-- terms that are a fixed token sequence -/
 inductive Atom : Ex → Prop where
@@ -226,8 +240,8 @@ inductive Core : Ex → Prop where
   | dot (e i : Ex) (he : Core e) (hi : Inv i) : Core (.dot e i)
   | idx (e i : Ex) (he : Core e) (hi : Core i) : Core (.idx e i)
 
-theorem inv_parse (e : Parser) (i : Ex) (hi : Inv i) (c : Nat) (rest : List Tok)
-    (hrest : ∀ r, rest ≠ .kw "(" :: r) : invocationP e (printAt c i ++ rest) = some (i, rest) := by
+theorem inv_parse (f : Nat) (i : Ex) (hi : Inv i) (c : Nat) (rest : List Tok) (hf : 2 * depth i ≤ f + 2)
+    (hrest : ∀ r, rest ≠ .kw "(" :: r) : invocationP (exprP f) (printAt c i ++ rest) = some (i, rest) := by
   cases hi with
   | member n =>
     simp only [printAt, List.cons_append, List.nil_append]
@@ -242,6 +256,27 @@ theorem inv_parse (e : Parser) (i : Ex) (hi : Inv i) (c : Nat) (rest : List Tok)
   | index => simp [printAt, invocationP]
   | total => simp [printAt, invocationP]
   | call0 n => simp [printAt, printArgs, invocationP, isIdentTok]
+  | callArgs n as h =>
+    obtain ⟨_, _, hne, hcl, hparse⟩ := h
+    simp only [depth] at hf
+    have hargs := hparse f (printArgs as ++ .kw ")" :: rest).length rest (by omega) (by simp)
+    simp only [printAt, List.cons_append, List.append_assoc, List.nil_append]
+    generalize hAS : printArgs as = AS at hne hcl hargs
+    cases AS with
+    | nil => exact absurd rfl hne
+    | cons a AS' =>
+      have hcl' : a ≠ .kw ")" := by intro h; exact hcl AS' (by rw [h])
+      simp only [List.cons_append] at hargs ⊢
+      unfold invocationP
+      simp only [isIdentTok]
+      split
+      · rename_i heq; simp at heq; exact absurd heq.1 hcl'
+      · rename_i r1 heq
+        simp only [List.cons.injEq, true_and] at heq
+        subst heq
+        simp only [hargs]
+      · rename_i h1 h2
+        exact absurd rfl (h2 _)
 
 end FP.Lemmas.Syntax
 
@@ -263,8 +298,8 @@ theorem restOK_of_stop (hT : tableOK = true) {c : Nat} {rest : List Tok} (h : St
   · intro u r hr
     exact (Stop.head hT h u r hr).2.2.2.1
 
-theorem atom_term (e : Parser) (a : Ex) (ha : Atom a) (c : Nat) (rest : List Tok) (hr : RestOK rest) :
-    termP e (printAt c a ++ rest) = some (a, rest) := by
+theorem atom_term (f : Nat) (a : Ex) (ha : Atom a) (c : Nat) (rest : List Tok) (hf : 2 * depth a ≤ f + 2) (hr : RestOK rest) :
+    termP (exprP f) (printAt c a ++ rest) = some (a, rest) := by
   obtain ⟨h1, h2, h3⟩ := hr
   cases ha with
   | num n =>
@@ -288,13 +323,14 @@ theorem atom_term (e : Parser) (a : Ex) (ha : Atom a) (c : Nat) (rest : List Tok
     simp [printAt, termP, hu]
   | ext n => simp [printAt, termP, isIdentTok]
   | inv _ hi =>
-    have := inv_parse e a hi c rest h1
+    have := inv_parse f a hi c rest hf h1
     cases hi with
     | member n => simpa [printAt, termP] using this
     | this => simpa [printAt, termP] using this
     | index => simpa [printAt, termP] using this
     | total => simpa [printAt, termP] using this
     | call0 n => simpa [printAt, printArgs, termP] using this
+    | callArgs n as h => simpa [printAt, termP] using this
 
 end FP.Lemmas.Syntax
 
@@ -302,13 +338,33 @@ namespace FP.Lemmas.Syntax
 open FP FP.Model.Syntax
 
 def stepAt (f i : Nat) (lvl : List String × Bool) : Step :=
-  if lvl.2 then stepTyp lvl.1 else stepBin lvl.1 (Pc f (i + 1))
+  if lvl.2 then stepTyp lvl.1 (Cc f (i + 1)) else stepBin lvl.1 (Pc f (i + 1))
+
+theorem lvl_lt' (i : Nat) (lvl : List String × Bool) (hl : binLevels[i]? = some lvl) : i < nLevels := by
+  rcases Nat.lt_or_ge i binLevels.length with h1 | h1
+  · exact h1
+  · rw [List.getElem?_eq_none h1] at hl; cases hl
+
+theorem stepAt_eq (f c : Nat) (lvl : List String × Bool) (h : binLevels[c]? = some lvl) :
+    levelStep lvl (Lc f (c + 1)) = stepAt f c lvl := by
+  have h2 : c + 1 ≤ nLevels := lvl_lt' c lvl h
+  unfold levelStep stepAt Cc Pc
+  simp only [h2, if_true]
 
 theorem Pc_levelG (f c : Nat) (lvl : List String × Bool) (h : binLevels[c]? = some lvl) :
     Pc f c = levelG (stepAt f c lvl) (Pc f (c + 1)) := by
-  rw [Pc_level f c lvl h]
-  unfold stepAt levelTyp levelBin
-  split <;> rfl
+  have h1 : c ≤ nLevels := Nat.le_of_lt (lvl_lt' c lvl h)
+  have h2 : c + 1 ≤ nLevels := lvl_lt' c lvl h
+  rw [← stepAt_eq f c lvl h]
+  simp only [Pc, h1, h2, if_true, Lc_level f c lvl h]
+
+theorem Cc_level (f c : Nat) (lvl : List String × Bool) (h : binLevels[c]? = some lvl) :
+    Cc f c = contThen (Cc f (c + 1)) (stepAt f c lvl) := by
+  rw [← stepAt_eq f c lvl h]
+  simp only [Cc, Lc_level f c lvl h]
+
+theorem Cc_unary (f : Nat) : Cc f nLevels = fun ts => loopB (stepPostfix (exprP f)) ts.length ts := by
+  simp [Cc, Lc, levelsL, nLevels]
 
 theorem stepAt_none (f i : Nat) (lvl : List String × Bool) (o : String) (h : lvl.1.contains o = false) :
     stepAt f i lvl o = none := by
@@ -328,6 +384,39 @@ theorem noTrigger_postfix (hT : tableOK = true) (e : Parser) (c : Nat) (rest : L
   simp [stepPostfix, this.1, this.2.1]
 
 theorem termP_nil (e : Parser) : termP e [] = none := by simp [termP, invocationP]
+
+/-- a loop that is not triggered builds nothing -/
+theorem loopB_stop (step : Step) (ts : List Tok) (h : NoTrigger step ts) (k : Nat) : loopB step k ts = some (id, ts) := by
+  cases k with
+  | zero =>
+    unfold loopB
+    split
+    · rename_i o r; simp [h o r rfl]
+    · rfl
+  | succ k =>
+    unfold loopB
+    split
+    · rename_i o r; simp [h o r rfl]
+    · rfl
+
+/-- nothing that can follow an expression of level ≥ c continues it: the continuation after a
+    suffix operator is empty on minimal renderings -/
+theorem Cc_stop (hT : tableOK = true) (f : Nat) (d c : Nat) (hc : c + d = nLevels) (rest : List Tok) (hs : Stop c rest) :
+    Cc f c rest = some (id, rest) := by
+  induction d generalizing c with
+  | zero =>
+    have : c = nLevels := by omega
+    subst this
+    rw [Cc_unary]
+    exact loopB_stop _ _ (noTrigger_postfix hT _ _ rest hs) _
+  | succ d ih =>
+    have hcN : c < nLevels := by omega
+    obtain ⟨lvl, hl⟩ : ∃ lvl, binLevels[c]? = some lvl := ⟨binLevels[c], List.getElem?_eq_getElem hcN⟩
+    rw [Cc_level f c lvl hl]
+    unfold contThen
+    rw [ih (c + 1) (by omega) (hs.mono (Nat.le_succ _))]
+    simp only [loopB_stop _ _ (noTrigger_level hT f c lvl hl rest hs), Option.map_some]
+    rfl
 
 /-- a result at a tighter level is the result at a looser level when nothing can extend it and
     no sign precedes it -/
@@ -522,7 +611,9 @@ theorem term_any (t : Ex) (hcore : Core t) (rt : RT t) (f : Nat) (rest2 : List T
     (hf : fuelOK (nLevels + 2) t f) (hr : RestOK rest2) :
     termP (exprP f) (printAt (nLevels + 2) t ++ rest2) = some (t, rest2) := by
   by_cases ha : Atom t
-  · exact atom_term _ t ha _ rest2 hr
+  · have hlv := atom_level t ha
+    simp only [fuelOK, hlv, Nat.lt_irrefl, if_false] at hf
+    exact atom_term _ t ha _ rest2 (by omega) hr
   · have hlt := nonatom_level t hcore ha
     simp only [fuelOK, hlt, if_true] at hf
     have hdp := depth_pos t
@@ -581,7 +672,8 @@ end FP.Lemmas.Syntax
 namespace FP.Lemmas.Syntax
 open FP FP.Model.Syntax
 
-theorem qualified_parse (q : List String) (hq : q ≠ []) (rest2 : List Tok) (hr : ∀ r, rest2 ≠ .kw "." :: r) (k : Nat)
+theorem qualified_parse (q : List String) (hq : q ≠ []) (rest2 : List Tok) (hr : ∀ r, rest2 ≠ .kw "." :: r)
+    (hp : ∀ r, rest2 ≠ .kw "(" :: r) (k : Nat)
     (hk : q.length ≤ k) : qualified k (qualToks q ++ rest2) = some (q, rest2) := by
   induction q generalizing k with
   | nil => exact absurd rfl hq
@@ -601,16 +693,24 @@ theorem qualified_parse (q : List String) (hq : q ≠ []) (rest2 : List Tok) (hr
           | _ => rfl
       | cons m q'' =>
         have ih' := ih (by simp) k (by simp at hk ⊢; omega)
-        have hq2 : ∃ tl, qualToks (m :: q'') = .ident m :: tl := by
+        have hq2 : ∃ tl, qualToks (m :: q'') = .ident m :: tl ∧ startsParen (tl ++ rest2) = false := by
           cases q'' with
-          | nil => exact ⟨[], rfl⟩
-          | cons a b => exact ⟨_, rfl⟩
-        obtain ⟨tl, htl⟩ := hq2
+          | nil =>
+            refine ⟨[], rfl, ?_⟩
+            rcases rest2 with _ | ⟨t, r⟩
+            · rfl
+            · cases t with
+              | kw s =>
+                have hs : s ≠ "(" := by intro e; subst e; exact hp r rfl
+                simp [startsParen, hs]
+              | _ => rfl
+          | cons a b => exact ⟨_, rfl, rfl⟩
+        obtain ⟨tl, htl, hsp⟩ := hq2
         have e1 : qualToks (n :: m :: q'') = .ident n :: .kw "." :: qualToks (m :: q'') := rfl
         rw [e1]
         rw [htl] at ih' ⊢
         simp only [List.cons_append] at ih' ⊢
-        simp only [qualified, isIdentTok, Option.isSome_some, if_true, ih']
+        simp only [qualified, isIdentTok, Option.isSome_some, hsp, Bool.not_false, Bool.and_self, if_true, ih']
 
 end FP.Lemmas.Syntax
 
@@ -629,9 +729,9 @@ theorem good_atom (hT : tableOK = true) (a : Ex) (ha : Atom a) : Good a := by
   have hlv := atom_level a ha
   have rt : RT a := by
     apply rt_of_core hT a hcore
-    intro f rest _ hs
+    intro f rest hf hs
     rw [hlv, Pc_term]
-    exact atom_term _ a ha _ rest (restOK_of_stop hT hs)
+    exact atom_term _ a ha _ rest (by omega) (restOK_of_stop hT hs)
   refine ⟨rt, ?_, ?_⟩
   · intro i lvl f rest2 res k0 hl hf hs hloop hk
     have := lvl_lt i lvl hl
@@ -718,7 +818,11 @@ theorem good_dot (hT : tableOK = true) (e i : Ex) (he : Core e) (hi : Inv i) (ge
       split <;> omega
     have hstep : stepPostfix (exprP f) "." = some (dotRhs (exprP f)) := by simp [stepPostfix]
     have hrhs : dotRhs (exprP f) (printAt (nLevels + 2) i ++ rest2) = some ((fun left => Ex.dot left i), rest2) := by
-      simp only [dotRhs, inv_parse (exprP f) i hi (nLevels + 2) rest2 hr.1, Option.map_some]
+      have hfi : 2 * depth i ≤ f + 2 := by
+        unfold fuelOK at hf
+        simp only [hlv, Nat.lt_irrefl, if_false, depth] at hf
+        omega
+      simp only [dotRhs, inv_parse f i hi (nLevels + 2) rest2 hfi hr.1, Option.map_some]
     have hl2 := loops_step _ "." _ hstep _ rest2 _ hrhs k0 e res hloop
     obtain ⟨x, r, k1, h1, h2, h3⟩ := ge.gp f (.kw "." :: (printAt (nLevels + 2) i ++ rest2)) res (k0 + 1) hfe
       (restOK_dot _) hl2 (by simp; omega)
@@ -851,9 +955,12 @@ theorem good_typ (hT : tableOK = true) (o : String) (e : Ex) (q : List String) (
       intro r hr
       exact (Stop.head hT hs "." r hr).1 rfl
     have hmem : o ∈ lvl.1 := by simpa using hcont
-    have hstep : stepAt f (levelIdx o true) lvl o = some (typRhs o) := by
+    have hstep : stepAt f (levelIdx o true) lvl o = some (typRhs o (Cc f (levelIdx o true + 1))) := by
       simp [stepAt, hty, stepTyp, hmem]
-    have hrhs : typRhs o (qualToks q ++ rest2) = some ((fun left => Ex.typ o left q), rest2) := by
+    have hcs : Cc f (levelIdx o true + 1) rest2 = some (id, rest2) := by
+      obtain ⟨d, hd⟩ : ∃ d, levelIdx o true + 1 + d = nLevels := ⟨nLevels - (levelIdx o true + 1), by omega⟩
+      exact Cc_stop hT f d _ hd rest2 hs
+    have hrhs : typRhs o (Cc f (levelIdx o true + 1)) (qualToks q ++ rest2) = some ((fun left => Ex.typ o left q), rest2) := by
       have hlen : q.length ≤ (qualToks q ++ rest2).length := by
         have : ∀ q : List String, q.length ≤ (qualToks q).length := by
           intro q; induction q with
@@ -862,7 +969,8 @@ theorem good_typ (hT : tableOK = true) (o : String) (e : Ex) (q : List String) (
             | nil => simp [qualToks]
             | cons c d => simp only [qualToks, List.length_cons] at ih ⊢; omega
         have := this q; simp; omega
-      simp only [typRhs, qualified_parse q hq rest2 hnodot _ hlen, Option.map_some]
+      simp only [typRhs, qualified_parse q hq rest2 hnodot (fun r hr => (Stop.head hT hs "(" r hr).2.2.1 rfl) _ hlen, hcs, Option.map_some]
+      rfl
     have hl2 := loops_step _ o _ hstep _ rest2 _ hrhs k0 e res hloop
     have hs2 : Stop (levelIdx o true + 1) (.kw o :: (qualToks q ++ rest2)) :=
       Or.inr ⟨o, _, rfl, Or.inr (Or.inr (Or.inr ⟨levelIdx o true, lvl, Nat.lt_succ_self _, hlvl, hcont⟩))⟩
@@ -908,7 +1016,9 @@ theorem depth_le_length (t : Ex) (h : Core t) : ∀ c, depth t ≤ (printAt c t)
   | atom e ha =>
     intro c
     cases ha <;> (try simp [depth, printAt])
-    rename_i hi; cases hi <;> simp [depth, printAt, printArgs]
+    rename_i hi; cases hi <;> (try simp [depth, printAt, printArgs])
+    rename_i h; have := h.2.1
+    omega
   | bin o l r ho hl hr ihl ihr =>
     intro c
     have h1 := ihl (levelIdx o false); have h2 := ihr (levelIdx o false + 1)
@@ -933,8 +1043,11 @@ theorem depth_le_length (t : Ex) (h : Core t) : ∀ c, depth t ≤ (printAt c t)
   | dot e i he hi ih =>
     intro c
     have h1 := ih (nLevels + 1)
-    have h2 : depth i ≤ 2 := by cases hi <;> simp [depth]
-    have h3 : 1 ≤ (printAt (nLevels + 2) i).length := by cases hi <;> simp [printAt, printArgs]
+    have h2 : depth i ≤ (printAt (nLevels + 2) i).length := by
+      cases hi <;> (try simp [depth, printAt, printArgs])
+      rename_i h; have := h.2.1
+      omega
+    have h3 : 1 ≤ depth i := depth_pos i
     have := paren_length (decide (nLevels + 1 < c)) (printAt (nLevels + 1) e ++ .kw "." :: printAt (nLevels + 2) i)
     simp only [printAt, depth] at this ⊢
     simp only [List.length_append, List.length_cons] at this
